@@ -136,6 +136,18 @@ func checkC16(s *C16Spec) Result {
 			return []byte(redact.Sprint(SafeFmtV{run: func(p redact.SafePrinter, verb rune) { runCompiled(&printerTarget{p: p, verb: verb}, ops, 0, nil) }}))
 		}},
 	}
+	// the directive that reaches a SafeFormat method is not its nested calls'
+	// business: Print / Printf format with their own flags (the Safe* methods
+	// for numbers do use the active width and flags: only scripts without them)
+	if flagInsensitive(s.Prefix) && flagInsensitive(s.Suffix) {
+		for _, d := range []string{"%8v", "%-6.1v", "%#v", "%+v", "%08.3v", "% x", "%q"} {
+			d := d
+			routes = append(routes, route{"SafePrinter in a SafeFormat method under " + d, func(ops []*compiled) []byte {
+				return []byte(redact.Sprintf(d, SafeFmtV{run: func(p redact.SafePrinter, verb rune) { runCompiled(&printerTarget{p: p, verb: verb}, ops, 0, nil) }}))
+			}})
+		}
+		res.Classes = append(res.Classes, "under-flagged-directives")
+	}
 	// is the outer buffer in an interesting state after the prefix?
 	var probe redact.StringBuilder
 	runCompiled(&sbTarget{b: &probe}, pre, 0, nil)
@@ -165,4 +177,16 @@ func checkC16(s *C16Spec) Result {
 		}
 	}
 	return res
+}
+
+// flagInsensitive: no op of the script formats a number with the flags of
+// the directive that reached the SafeFormat method.
+func flagInsensitive(ops []*Op) bool {
+	for _, op := range ops {
+		switch op.K {
+		case "SafeInt", "SafeUint", "SafeFloat", "State", "Fwd":
+			return false
+		}
+	}
+	return true
 }
